@@ -97,3 +97,19 @@ Proof.
   rewrite (flat_map_single (fun x : list pstep * value => x)), map_id in H. exact H.
 Qed.
 Print Assumptions C07_wildcard_order_from_text.
+
+(* From the path text (BoolText.v, with C01_filter_retrieval): a filter step — whatever its query: existence, negation,
+   comparison, a query in disjunctive form, spaced or not — visits the members of an object in ascending key order
+   (sorted_keys) and the elements of an array in index order, and keeps those whose verdict is true: its results are a
+   subsequence of the wildcard's (C07_wildcard_order_from_text). *)
+From JP Require Import FiltChain FiltAddr QueryAddr FiltChainAddr BoolText.
+Theorem C07_filter_order_from_text : forall parse_float regex_match root x p, is_filt x = true ->
+  (forall m, nav1f parse_float regex_match root x (p, VObj m) =
+     flat_map (fun k => match lookup m k with
+                        | Some v => if verdict parse_float regex_match root x (kids (VObj m)) v then [(p ++ [PKey k], v)] else []
+                        | None => []
+                        end) (sorted_keys m)) /\
+  (forall xs, nav1f parse_float regex_match root x (p, VArr xs) =
+     flat_map (fun iv : Z * value => if verdict parse_float regex_match root x xs (snd iv) then [(p ++ [PIdx (fst iv)], snd iv)] else []) (index_list xs 0)).
+Proof. exact filter_step_order. Qed.
+Print Assumptions C07_filter_order_from_text.
